@@ -326,6 +326,7 @@ func (e *v17Echo) OnRemoteClose() {}
 
 func v17NewListener(path string) (*Listener, error) {
 	cfg := NewDefaultListenerConfig(path, "unix")
+	cfg.InitializeTimeout = 5 * time.Second
 	l, err := NewListener(v17Listen{}, cfg)
 	if err != nil {
 		return nil, err
@@ -377,7 +378,19 @@ func v17NewScn(name string, n int, interval time.Duration) (*v17Scn, error) {
 	return v17NewScnMem(name, n, interval, MemMapTypeMemFd)
 }
 
-func v17NewScnMem(name string, n int, interval time.Duration, mem MemMapType) (*v17Scn, error) {
+// the handshake of a new session occasionally times out on a loaded machine; that says nothing about the
+// property: the scenario is set up again, a few times at most
+func v17NewScnMem(name string, n int, interval time.Duration, mem MemMapType) (sc *v17Scn, err error) {
+	for attempt := 0; attempt < 4; attempt++ {
+		if sc, err = v17NewScnMemOnce(name, n, interval, mem); err == nil {
+			return sc, nil
+		}
+		time.Sleep(time.Duration(200*(attempt+1)) * time.Millisecond)
+	}
+	return nil, err
+}
+
+func v17NewScnMemOnce(name string, n int, interval time.Duration, mem MemMapType) (*v17Scn, error) {
 	pid := os.Getpid()
 	sc := &v17Scn{name: name, n: n, t0: time.Now(), interval: interval,
 		path:   fmt.Sprintf("/tmp/v17_%d_%s.sock", pid, name),
@@ -397,6 +410,9 @@ func v17NewScnMem(name string, n int, interval time.Duration, mem MemMapType) (*
 	conf.QueuePath = sc.prefix + "_queue"
 	conf.ShareMemoryBufferCap = 4 << 20
 	conf.rebuildInterval = interval
+	if conf.InitializeTimeout < 5*time.Second {
+		conf.InitializeTimeout = 5 * time.Second
+	}
 	if sc.sm, err = NewSessionManager(conf); err != nil {
 		sc.lis.Close()
 		return nil, err
@@ -1014,6 +1030,9 @@ func v17CloseInFlight(name string, interval time.Duration, delay time.Duration) 
 	conf.QueuePath = sc.prefix + "_queue"
 	conf.ShareMemoryBufferCap = 4 << 20
 	conf.rebuildInterval = interval
+	if conf.InitializeTimeout < 5*time.Second {
+		conf.InitializeTimeout = 5 * time.Second
+	}
 	conf.InitializeTimeout = 5 * time.Second
 	serve := func(c net.Conn, d time.Duration) <-chan *Session {
 		ch := make(chan *Session, 1)
@@ -1220,20 +1239,27 @@ func v17CloseRace(name string, n int, interval time.Duration, epoch uint64) v17C
 }
 
 // ------------------------------------------------------------------------------------------ source shape
-// What the model assumes about the ORDER of statements in session_manager.go, read from the current
-// source (go/ast): in the watcher of background() the comparison `sm.pools[id] != pool` stands after the
-// receive from rebuildTimer.C, in the same statement list as the newClientSession call, between sm.Lock()
-// and the next sm.Unlock() of that list; pool.session.Store comes after that Unlock; in Close, wg.Wait()
-// precedes the first pool close() and the close() calls stand between sm.Lock() and sm.Unlock().
+// What the model assumes about the ORDER of statements in session_manager.go, read structurally from the
+// current source (go/ast; no identifier names of locals are relied upon):
+//
+//	timer receive  = a receive from X.C where X was assigned from time.NewTimer / time.NewTicker, or a
+//	                 receive from time.After(...) / time.Tick(...), in the statement list that holds the dial
+//	identity check = a comparison (!= or ==, either order) of <recv>.pools[...] with an identifier
+//	dial           = the call of newClientSession;   store = a call <x>.session.Store(...)
+//	lock regions   = <recv>.Lock() / <recv>.Unlock() calls that are statements of that same list
+//
+// Every fact is three-valued: true / false (positively established) / null (could not be read).
 type v17Shape struct {
 	Found               bool   `json:"found"`
-	CheckAfterTimer     bool   `json:"check_after_timer"`
-	CheckInLockWithDial bool   `json:"check_in_lock_with_dial"`
-	StoreAfterUnlock    bool   `json:"store_after_unlock"`
-	CloseWaitFirst      bool   `json:"close_wait_before_closing"`
-	CloseUnderLock      bool   `json:"close_under_lock"`
+	CheckAfterTimer     *bool  `json:"check_after_timer"`
+	CheckInLockWithDial *bool  `json:"check_in_lock_with_dial"`
+	StoreAfterUnlock    *bool  `json:"store_after_unlock"`
+	CloseWaitFirst      *bool  `json:"close_wait_before_closing"`
+	CloseUnderLock      *bool  `json:"close_under_lock"`
 	Err                 string `json:"err,omitempty"`
 }
+
+func v17B(b bool) *bool { return &b }
 
 func v17Contains(n ast.Node, pred func(ast.Node) bool) bool {
 	found := false
@@ -1246,64 +1272,88 @@ func v17Contains(n ast.Node, pred func(ast.Node) bool) bool {
 	return found
 }
 
-func v17IsCall(n ast.Node, recv, name string) bool {
-	c, ok := n.(*ast.CallExpr)
+// root identifier and last selector of a call's function: sm.Lock -> ("sm","Lock"); sm.wg.Wait -> ("sm","Wait")
+func v17CallPath(n ast.Node) (root string, chain []string, ok bool) {
+	c, isCall := n.(*ast.CallExpr)
+	if !isCall {
+		return "", nil, false
+	}
+	var e ast.Expr = c.Fun
+	for {
+		switch x := e.(type) {
+		case *ast.SelectorExpr:
+			chain = append([]string{x.Sel.Name}, chain...)
+			e = x.X
+			continue
+		case *ast.IndexExpr: // sm.pools[i].close()
+			e = x.X
+			continue
+		case *ast.ParenExpr:
+			e = x.X
+			continue
+		case *ast.Ident:
+			return x.Name, chain, true
+		}
+		return "", nil, false
+	}
+}
+
+func v17IsMethodStmt(st ast.Stmt, recv, name string) bool {
+	es, ok := st.(*ast.ExprStmt)
 	if !ok {
 		return false
 	}
-	switch f := c.Fun.(type) {
-	case *ast.Ident:
-		return recv == "" && f.Name == name
-	case *ast.SelectorExpr:
-		if f.Sel.Name != name {
-			return false
-		}
-		if recv == "*" {
+	root, chain, ok := v17CallPath(es.X)
+	return ok && root == recv && len(chain) >= 1 && chain[len(chain)-1] == name
+}
+
+func v17IsPkgCall(n ast.Node, pkg string, names ...string) bool {
+	root, chain, ok := v17CallPath(n)
+	if !ok || root != pkg || len(chain) != 1 {
+		return false
+	}
+	for _, nm := range names {
+		if chain[0] == nm {
 			return true
-		}
-		if id, ok := f.X.(*ast.Ident); ok {
-			return id.Name == recv
-		}
-		if sel, ok := f.X.(*ast.SelectorExpr); ok { // sm.wg.Wait, pool.session.Store
-			return sel.Sel.Name == recv
 		}
 	}
 	return false
 }
 
-func v17IsTopCall(st ast.Stmt, recv, name string) bool {
-	es, ok := st.(*ast.ExprStmt)
-	return ok && v17IsCall(es.X, recv, name)
+func v17IsDial(n ast.Node) bool {
+	root, chain, ok := v17CallPath(n)
+	return ok && root == "newClientSession" && len(chain) == 0
 }
 
-func v17IsIdentityCheck(n ast.Node) bool {
-	b, ok := n.(*ast.BinaryExpr)
-	if !ok || b.Op != token.NEQ {
-		return false
-	}
-	ix, ok := b.X.(*ast.IndexExpr)
-	if !ok {
-		return false
-	}
-	sel, ok := ix.X.(*ast.SelectorExpr)
-	if !ok || sel.Sel.Name != "pools" {
-		return false
-	}
-	id, ok := b.Y.(*ast.Ident)
-	return ok && id.Name == "pool"
+func v17IsStore(n ast.Node) bool {
+	_, chain, ok := v17CallPath(n)
+	return ok && len(chain) >= 2 && chain[len(chain)-1] == "Store" && chain[len(chain)-2] == "session"
 }
 
-func v17IsTimerRecv(n ast.Node) bool {
-	u, ok := n.(*ast.UnaryExpr)
-	if !ok || u.Op != token.ARROW {
-		return false
+func v17IsIdentityCheck(recv string) func(ast.Node) bool {
+	isPools := func(e ast.Expr) bool {
+		ix, ok := e.(*ast.IndexExpr)
+		if !ok {
+			return false
+		}
+		sel, ok := ix.X.(*ast.SelectorExpr)
+		if !ok || sel.Sel.Name != "pools" {
+			return false
+		}
+		id, ok := sel.X.(*ast.Ident)
+		return ok && id.Name == recv
 	}
-	sel, ok := u.X.(*ast.SelectorExpr)
-	if !ok || sel.Sel.Name != "C" {
-		return false
+	isVar := func(e ast.Expr) bool {
+		id, ok := e.(*ast.Ident)
+		return ok && id.Name != "nil"
 	}
-	id, ok := sel.X.(*ast.Ident)
-	return ok && id.Name == "rebuildTimer"
+	return func(n ast.Node) bool {
+		b, ok := n.(*ast.BinaryExpr)
+		if !ok || (b.Op != token.NEQ && b.Op != token.EQL) {
+			return false
+		}
+		return (isPools(b.X) && isVar(b.Y)) || (isPools(b.Y) && isVar(b.X))
+	}
 }
 
 func v17ReadShape() v17Shape {
@@ -1315,104 +1365,183 @@ func v17ReadShape() v17Shape {
 		return sh
 	}
 	var bg, cl *ast.FuncDecl
-	for _, d := range f.Decls {
-		if fd, ok := d.(*ast.FuncDecl); ok && fd.Recv != nil {
-			if fd.Name.Name == "background" {
-				bg = fd
+	recvOf := func(fd *ast.FuncDecl) (typ, name string) {
+		if fd.Recv == nil || len(fd.Recv.List) != 1 {
+			return "", ""
+		}
+		if len(fd.Recv.List[0].Names) == 1 {
+			name = fd.Recv.List[0].Names[0].Name
+		}
+		if st, ok := fd.Recv.List[0].Type.(*ast.StarExpr); ok {
+			if id, ok := st.X.(*ast.Ident); ok {
+				typ = id.Name
 			}
-			if fd.Name.Name == "Close" && len(fd.Recv.List) == 1 {
-				if st, ok := fd.Recv.List[0].Type.(*ast.StarExpr); ok {
-					if id, ok := st.X.(*ast.Ident); ok && id.Name == "SessionManager" {
-						cl = fd
-					}
+		}
+		return
+	}
+	for _, d := range f.Decls {
+		if fd, ok := d.(*ast.FuncDecl); ok {
+			if t, _ := recvOf(fd); t == "SessionManager" {
+				// the watcher lives in the method that holds the rebuild dial; Close is an API name
+				if fd.Body != nil && v17Contains(fd.Body, v17IsDial) && v17Contains(fd.Body, func(n ast.Node) bool { _, ok := n.(*ast.GoStmt); return ok }) {
+					bg = fd
+				}
+				if fd.Name.Name == "Close" {
+					cl = fd
 				}
 			}
 		}
 	}
 	if bg == nil || cl == nil {
-		sh.Err = "background() or SessionManager.Close not found"
+		sh.Err = "the method of SessionManager with the watcher goroutines (go func + newClientSession) or SessionManager.Close was not found"
 		return sh
 	}
-	// the statement list that holds the dial
+	_, recv := recvOf(bg)
+	// timer variables: assigned from time.NewTimer / time.NewTicker anywhere in the method
+	timers := map[string]bool{}
+	ast.Inspect(bg, func(n ast.Node) bool {
+		if as, ok := n.(*ast.AssignStmt); ok && len(as.Lhs) == len(as.Rhs) {
+			for i := range as.Rhs {
+				if v17IsPkgCall(as.Rhs[i], "time", "NewTimer", "NewTicker") {
+					if id, ok := as.Lhs[i].(*ast.Ident); ok {
+						timers[id.Name] = true
+					}
+				}
+			}
+		}
+		return true
+	})
+	isTimerRecv := func(n ast.Node) bool {
+		u, ok := n.(*ast.UnaryExpr)
+		if !ok || u.Op != token.ARROW {
+			return false
+		}
+		if v17IsPkgCall(u.X, "time", "After", "Tick") {
+			return true
+		}
+		sel, ok := u.X.(*ast.SelectorExpr)
+		if !ok || sel.Sel.Name != "C" {
+			return false
+		}
+		id, ok := sel.X.(*ast.Ident)
+		return ok && timers[id.Name]
+	}
+	// the innermost statement list one of whose simple statements holds the dial
 	var list []ast.Stmt
 	ast.Inspect(bg, func(n ast.Node) bool {
 		if b, ok := n.(*ast.BlockStmt); ok {
 			for _, st := range b.List {
-				if as, ok := st.(*ast.AssignStmt); ok && len(as.Rhs) == 1 && v17IsCall(as.Rhs[0], "", "newClientSession") {
-					list = b.List
+				switch st.(type) {
+				case *ast.AssignStmt, *ast.ExprStmt, *ast.DeclStmt:
+					if v17Contains(st, v17IsDial) {
+						list = b.List
+					}
 				}
 			}
 		}
 		return true
 	})
 	if list == nil {
-		sh.Err = "the statement list with the newClientSession call was not found in background()"
+		sh.Err = "the statement list with the newClientSession call was not found in the watcher"
 		return sh
 	}
 	sh.Found = true
+	isCheck := v17IsIdentityCheck(recv)
 	iTimer, iCheck, iDial, iStore := -1, -1, -1, -1
 	for i, st := range list {
-		if iTimer < 0 && v17Contains(st, v17IsTimerRecv) {
-			iTimer = i
+		if v17Contains(st, isTimerRecv) {
+			iTimer = i // the last one before the dial counts
 		}
-		if iCheck < 0 && v17Contains(st, v17IsIdentityCheck) {
+		if iCheck < 0 && v17Contains(st, isCheck) {
 			iCheck = i
 		}
-		if as, ok := st.(*ast.AssignStmt); ok && len(as.Rhs) == 1 && v17IsCall(as.Rhs[0], "", "newClientSession") {
-			iDial = i
+		switch st.(type) {
+		case *ast.AssignStmt, *ast.ExprStmt, *ast.DeclStmt:
+			if iDial < 0 && v17Contains(st, v17IsDial) {
+				iDial = i
+				if iTimer > i {
+					iTimer = -1
+				}
+			}
 		}
-		if iStore < 0 && v17Contains(st, func(n ast.Node) bool { return v17IsCall(n, "session", "Store") }) {
+		if iStore < 0 && v17Contains(st, v17IsStore) {
 			iStore = i
 		}
 	}
-	sh.CheckAfterTimer = iTimer >= 0 && iCheck > iTimer
-	if iCheck >= 0 && iDial > iCheck {
-		lockBefore := false
-		for i := iCheck - 1; i >= 0; i-- {
-			if v17IsTopCall(list[i], "sm", "Unlock") || v17IsTopCall(list[i], "sm", "RUnlock") {
-				break
+	// timer: the last receive before the dial
+	iTimer = -1
+	for i := 0; i < iDial; i++ {
+		if v17Contains(list[i], isTimerRecv) {
+			iTimer = i
+		}
+	}
+	if iTimer >= 0 && iCheck >= 0 {
+		sh.CheckAfterTimer = v17B(iCheck > iTimer)
+	}
+	if iCheck >= 0 && iDial >= 0 {
+		if iCheck > iDial {
+			sh.CheckInLockWithDial = v17B(false)
+		} else {
+			verdict := 0 // 1 write lock, -1 something else positively, 0 unknown
+			for i := iCheck - 1; i >= 0; i-- {
+				if v17IsMethodStmt(list[i], recv, "Unlock") || v17IsMethodStmt(list[i], recv, "RUnlock") || v17IsMethodStmt(list[i], recv, "RLock") {
+					verdict = -1
+					break
+				}
+				if v17IsMethodStmt(list[i], recv, "Lock") {
+					verdict = 1
+					break
+				}
 			}
-			if v17IsTopCall(list[i], "sm", "Lock") {
-				lockBefore = true
-				break
+			for i := iCheck; i < iDial; i++ {
+				if v17IsMethodStmt(list[i], recv, "Unlock") {
+					verdict = -1
+				}
+			}
+			if verdict != 0 {
+				sh.CheckInLockWithDial = v17B(verdict == 1)
 			}
 		}
-		unlockBetween := false
-		for i := iCheck; i < iDial; i++ {
-			if v17IsTopCall(list[i], "sm", "Unlock") {
-				unlockBetween = true
-			}
-		}
-		sh.CheckInLockWithDial = lockBefore && !unlockBetween
 	}
 	if iStore > iDial && iDial >= 0 {
+		late := false
 		for i := iDial + 1; i < iStore; i++ {
-			if v17IsTopCall(list[i], "sm", "Unlock") {
-				sh.StoreAfterUnlock = true
+			if v17IsMethodStmt(list[i], recv, "Unlock") {
+				late = true
 			}
 		}
+		sh.StoreAfterUnlock = v17B(late)
 	}
-	// Close
+	// Close: wg.Wait() before the first close(); the close() calls between Lock and Unlock
+	_, crecv := recvOf(cl)
 	iWait, iLock, iUnlock, iFirstClose, iLastClose := -1, -1, -1, -1, -1
+	isCloseCall := func(n ast.Node) bool {
+		_, chain, ok := v17CallPath(n)
+		return ok && len(chain) >= 1 && chain[len(chain)-1] == "close"
+	}
 	for i, st := range cl.Body.List {
-		if v17IsTopCall(st, "wg", "Wait") {
+		if v17IsMethodStmt(st, crecv, "Wait") {
 			iWait = i
 		}
-		if v17IsTopCall(st, "sm", "Lock") && iLock < 0 {
+		if v17IsMethodStmt(st, crecv, "Lock") && iLock < 0 {
 			iLock = i
 		}
-		if v17IsTopCall(st, "sm", "Unlock") {
+		if v17IsMethodStmt(st, crecv, "Unlock") {
 			iUnlock = i
 		}
-		if v17Contains(st, func(n ast.Node) bool { return v17IsCall(n, "*", "close") }) {
+		if v17Contains(st, isCloseCall) {
 			if iFirstClose < 0 {
 				iFirstClose = i
 			}
 			iLastClose = i
 		}
 	}
-	sh.CloseWaitFirst = iWait >= 0 && iFirstClose > iWait
-	sh.CloseUnderLock = iLock >= 0 && iFirstClose > iLock && iUnlock > iLastClose
+	if iWait >= 0 && iFirstClose >= 0 {
+		sh.CloseWaitFirst = v17B(iFirstClose > iWait)
+	}
+	if iFirstClose >= 0 && iLock >= 0 && iUnlock >= 0 {
+		sh.CloseUnderLock = v17B(iFirstClose > iLock && iUnlock > iLastClose)
+	}
 	return sh
 }
 
@@ -1573,6 +1702,10 @@ var vhookC17Mu sync.Mutex
 // to the manager as the posted lambda of handleHotRestart does) and swaps sm.pools[id]; then the watcher goes
 // on.  The replacement must not end up in the pool that was just parked.
 func v17StoreRace(name string, interval time.Duration, epoch uint64) v17Case {
+	if os.Getenv("VERIF_C17_NOHOOK") == "1" {
+		// the plugin did not find the anchor of the hook in the current source: nothing to run here
+		return v17Case{ID: name, N: 1, SkipModel: true, Stats: map[string]int64{}, Notes: map[string]string{"hook": "no anchor in the source; scenario not run"}}
+	}
 	vhookC17Mu.Lock() // one user of the hook at a time
 	defer vhookC17Mu.Unlock()
 	sc, err := v17NewScn(name, 1, interval)
